@@ -236,10 +236,12 @@ CHECKS = {
             "C08_bind_existing_aliases (nothing allocated, no byte outside the slot changes, the reference denotes that very "
             "object), C08_bind_value_fresh (a new node of the member class, disjoint from everything live before), "
             "C08_through_ref_same_address (the address computed through the reference for field j IS the address of field j of the "
-            "live original), C08_bind_null.",
-            "Partial: the history invariant is a theorem for node classes inside one buffer; for references held in arrays and "
-            "dynamic structs, referents that are arrays, and several buffers it is established by the oracle on generated histories "
-            "against the executable heap model, not by induction in Lean.",
+            "live original), C08_bind_null, C08_two_buffer_history (TWO buffers: histories interleaving any operations inside each "
+            "with copy constructions of nodes from one into the other - `xcopy`, all referents duplicated - keep the invariant in "
+            "BOTH: no reference ever denotes anything outside its own buffer).",
+            "Partial: the history invariant is a theorem for node classes in one or two buffers; for references held in dynamic "
+            "arrays and dynamic structs, referents that are arrays, and a third buffer / other contexts it is established by the "
+            "oracle on generated histories against the executable heap model, not by induction in Lean.",
             "7/C08"),
     "C09": ("Lean 4 proof: window-translation lemma for patch application + the agreement-strengthened round trip => the byte copy "
             "of a written object reads as the same value anywhere; frame lemma for independence; executable heap model tied on all "
